@@ -59,6 +59,7 @@ type penv struct {
 	client *ss2022.UDPClient
 	server *ss2022.UDPServer
 	eihLen int
+	cast   *cast
 }
 
 func newPenv(cfg pcfg) (*penv, error) {
@@ -173,29 +174,52 @@ type ppkt struct {
 // world is the per-history set of fresh real objects.
 type world struct {
 	e    *penv
+	c    *cast
 	side byte // 's' = server unpacker under test, 'c' = client unpacker under test
 	ctx  context.Context
-
-	cpA, cpB *ss2022.ShadowPacketClientPacker
-	cuA      zerocopy.ClientUnpacker
-	suA      zerocopy.ServerUnpacker
-	sp   [3]*ss2022.ShadowPacketServerPacker
-	spB  *ss2022.ShadowPacketServerPacker
+	cuA  zerocopy.ClientUnpacker
+	suA  zerocopy.ServerUnpacker
 	pkts map[pop]*ppkt
-
-	buf    []byte
-	rbuf   []byte
-	cFront int
-	ops    int64 // calls into real pack/unpack code
+	ops  int64 // calls into real pack/unpack code
 }
 
-func (e *penv) newWorld(side byte) (*world, error) {
-	w := &world{e: e, side: side, ctx: context.Background(), pkts: map[pop]*ppkt{}}
+// cast is the set of long-lived real objects of a configuration that carry no
+// replay state: the client sessions' packers and the server sessions' packers
+// (their only mutable field, the packet ID, is set explicitly before each use).
+// The crypto/rand stream is reset before every session creation, so a fresh
+// client session made for a history has the same session ID as the cast's.
+type cast struct {
+	cpA, cpB  *ss2022.ShadowPacketClientPacker
+	setupA    []byte // pristine first packet of session A (never delivered)
+	sp        [3]*ss2022.ShadowPacketServerPacker
+	spB       *ss2022.ShadowPacketServerPacker
+	buf, rbuf []byte
+	cFront    int
+}
+
+func (e *penv) newSessionA() (zerocopy.UDPClientSessionInfo, zerocopy.UDPClientSession, error) {
 	vcrand.Deterministic = true
 	vcrand.Reset()
+	return e.client.NewSession(context.Background())
+}
+
+var lastEnv *penv
+
+func (e *penv) getCast() (*cast, error) {
+	if e.cast != nil {
+		if lastEnv != e {
+			lastEnv = e
+			clear(resealAEADs)
+		}
+		return e.cast, nil
+	}
+	lastEnv = e
+	clear(resealAEADs)
 	vrand.Hook = func(n int) int { return 0 }
 	vsched.SetClock(pT0)
-	info, sa, err := e.client.NewSession(w.ctx)
+	c := &cast{}
+	w := &world{e: e, c: c, ctx: context.Background()}
+	info, sa, err := e.newSessionA()
 	if err != nil {
 		return nil, err
 	}
@@ -203,51 +227,79 @@ func (e *penv) newWorld(side byte) (*world, error) {
 	if err != nil {
 		return nil, err
 	}
-	w.cFront = info.PackerHeadroom.Front + 64
-	w.buf = make([]byte, w.cFront+64+info.PackerHeadroom.Rear)
-	w.rbuf = make([]byte, len(w.buf))
+	c.cFront = info.PackerHeadroom.Front + 64
+	c.buf = make([]byte, c.cFront+64+info.PackerHeadroom.Rear)
+	c.rbuf = make([]byte, len(c.buf))
 	var ok bool
-	if w.cpA, ok = sa.Packer.(*ss2022.ShadowPacketClientPacker); !ok {
+	if c.cpA, ok = sa.Packer.(*ss2022.ShadowPacketClientPacker); !ok {
 		return nil, fmt.Errorf("client packer is %T", sa.Packer)
 	}
-	w.cpB, _ = sb.Packer.(*ss2022.ShadowPacketClientPacker)
-	w.cuA = sa.Unpacker
-	suA, err := w.newServerUnpacker(w.cpA)
+	c.cpB, _ = sb.Packer.(*ss2022.ShadowPacketClientPacker)
+	if c.setupA, err = w.packClient(c.cpA, 0, []byte("setup")); err != nil {
+		return nil, err
+	}
+	suA, err := w.newServerUnpacker(c.cpA, c.setupA)
 	if err != nil {
 		return nil, err
 	}
-	w.suA = suA
-	if side == 'c' {
-		for i := range w.sp {
-			p, err := suA.NewPacker()
-			if err != nil {
-				return nil, err
-			}
-			if w.sp[i], ok = p.(*ss2022.ShadowPacketServerPacker); !ok {
-				return nil, fmt.Errorf("server packer is %T", p)
-			}
-		}
-		suB, err := w.newServerUnpacker(w.cpB)
+	for i := range c.sp {
+		p, err := suA.NewPacker()
 		if err != nil {
 			return nil, err
 		}
-		p, err := suB.NewPacker()
-		if err != nil {
-			return nil, err
+		if c.sp[i], ok = p.(*ss2022.ShadowPacketServerPacker); !ok {
+			return nil, fmt.Errorf("server packer is %T", p)
 		}
-		w.spB, _ = p.(*ss2022.ShadowPacketServerPacker)
 	}
+	setupB, err := w.packClient(c.cpB, 0, []byte("setup"))
+	if err != nil {
+		return nil, err
+	}
+	suB, err := w.newServerUnpacker(c.cpB, setupB)
+	if err != nil {
+		return nil, err
+	}
+	p, err := suB.NewPacker()
+	if err != nil {
+		return nil, err
+	}
+	c.spB, _ = p.(*ss2022.ShadowPacketServerPacker)
+	e.cast = c
+	return c, nil
+}
+
+// newWorld makes the fresh real unpacker a history runs against.
+func (e *penv) newWorld(side byte) (*world, error) {
+	c, err := e.getCast()
+	if err != nil {
+		return nil, err
+	}
+	w := &world{e: e, c: c, side: side, ctx: context.Background(), pkts: map[pop]*ppkt{}}
+	vrand.Hook = func(n int) int { return 0 }
+	vsched.SetClock(pT0)
+	if side == 's' {
+		if w.suA, err = w.newServerUnpacker(c.cpA, c.setupA); err != nil {
+			return nil, err
+		}
+		return w, nil
+	}
+	_, sa, err := e.newSessionA()
+	if err != nil {
+		return nil, err
+	}
+	cp, ok := sa.Packer.(*ss2022.ShadowPacketClientPacker)
+	if !ok || ss2022.VerifC04ClientPackerSessionID(cp) != ss2022.VerifC04ClientPackerSessionID(c.cpA) {
+		return nil, fmt.Errorf("a fresh client session does not reproduce the session ID of the first one")
+	}
+	w.cuA = sa.Unpacker
 	return w, nil
 }
 
 // newServerUnpacker makes the server-side unpacker of a client session the way
 // the relay does: from the first packet of that session (which is then dropped
 // here, so the filter is still to be created by the first valid packet).
-func (w *world) newServerUnpacker(cp *ss2022.ShadowPacketClientPacker) (zerocopy.ServerUnpacker, error) {
-	raw, err := w.packClient(cp, 0, []byte("setup"))
-	if err != nil {
-		return nil, err
-	}
+func (w *world) newServerUnpacker(cp *ss2022.ShadowPacketClientPacker, setup []byte) (zerocopy.ServerUnpacker, error) {
+	raw := bytes.Clone(setup)
 	csid, err := w.e.server.SessionInfo(raw)
 	if err != nil {
 		return nil, err
@@ -264,34 +316,43 @@ func (w *world) newServerUnpacker(cp *ss2022.ShadowPacketClientPacker) (zerocopy
 
 func (w *world) packClient(cp *ss2022.ShadowPacketClientPacker, id uint64, payload []byte) ([]byte, error) {
 	ss2022.VerifC04ClientPackerSetPacketID(cp, id)
-	copy(w.buf[w.cFront:], payload)
+	copy(w.c.buf[w.c.cFront:], payload)
 	w.ops++
-	_, start, n, err := cp.PackInPlace(w.ctx, w.buf, pTargetAddr, w.cFront, len(payload))
+	_, start, n, err := cp.PackInPlace(w.ctx, w.c.buf, pTargetAddr, w.c.cFront, len(payload))
 	if err != nil {
 		return nil, err
 	}
-	return bytes.Clone(w.buf[start : start+n]), nil
+	return bytes.Clone(w.c.buf[start : start+n]), nil
 }
 
 func (w *world) packServer(sp *ss2022.ShadowPacketServerPacker, id uint64, payload []byte) ([]byte, error) {
 	ss2022.VerifC04ServerPackerSetPacketID(sp, id)
-	copy(w.buf[w.cFront:], payload)
+	copy(w.c.buf[w.c.cFront:], payload)
 	w.ops++
-	start, n, err := sp.PackInPlace(w.buf, pTargetAddrPort, w.cFront, len(payload), 1452)
+	start, n, err := sp.PackInPlace(w.c.buf, pTargetAddrPort, w.c.cFront, len(payload), 1452)
 	if err != nil {
 		return nil, err
 	}
-	return bytes.Clone(w.buf[start : start+n]), nil
+	return bytes.Clone(w.c.buf[start : start+n]), nil
 }
+
+// resealAEADs caches the harness-side session ciphers (one process = one key set per configuration;
+// the key is the session salt, which differs between configurations because the PSKs differ in length only --
+// so the cache is cleared whenever a worker switches configuration).
+var resealAEADs = map[string]cipher.AEAD{}
 
 // reseal opens an authentic packet with the right keys, lets mutate change the
 // plaintext message header, and seals it again under the same nonce.
 func reseal(raw []byte, block cipher.Block, aeadFor func(salt []byte) (cipher.AEAD, error), bodyOff int, mutate func(plain []byte)) error {
 	hdr := raw[:16]
 	block.Decrypt(hdr, hdr)
-	aead, err := aeadFor(hdr[:8])
-	if err != nil {
-		return err
+	aead := resealAEADs[string(hdr[:8])+string(rune(bodyOff))]
+	if aead == nil {
+		var err error
+		if aead, err = aeadFor(hdr[:8]); err != nil {
+			return err
+		}
+		resealAEADs[string(hdr[:8])+string(rune(bodyOff))] = aead
 	}
 	nonce := bytes.Clone(hdr[4:16])
 	body := raw[bodyOff:]
@@ -326,9 +387,9 @@ func (w *world) packet(o pop) (*ppkt, error) {
 	vsched.SetClock(p.ts * 1e9)
 	var err error
 	if w.side == 's' {
-		cp := w.cpA
+		cp := w.c.cpA
 		if o.K == 'X' {
-			cp = w.cpB
+			cp = w.c.cpB
 			p.sess = -1
 			p.csidOK = false
 		}
@@ -342,13 +403,13 @@ func (w *world) packet(o pop) (*ppkt, error) {
 		case 'B':
 			p.sess = -1
 			p.csidOK = false
-			p.raw, err = w.packServer(w.spB, o.ID, p.payload)
+			p.raw, err = w.packServer(w.c.spB, o.ID, p.payload)
 		case 'R':
 			p.sess = -1
 			p.typeOK = false
-			p.raw, err = w.packClient(w.cpA, o.ID, p.payload)
+			p.raw, err = w.packClient(w.c.cpA, o.ID, p.payload)
 		default:
-			p.raw, err = w.packServer(w.sp[o.S], o.ID, p.payload)
+			p.raw, err = w.packServer(w.c.sp[o.S], o.ID, p.payload)
 			if err == nil && o.K == 'T' {
 				p.typeOK = false
 				err = reseal(p.raw, w.e.ucc.Block(), w.e.ucc.AEAD, 16, func(plain []byte) { plain[0] = ss2022.HeaderTypeClientPacket })
@@ -378,22 +439,22 @@ func (w *world) deliver(p *ppkt) (accepted bool, payloadOK bool, errText string,
 			panicText = fmt.Sprint(r)
 		}
 	}()
-	n := copy(w.rbuf, p.raw)
+	n := copy(w.c.rbuf, p.raw)
 	var ps, pl int
 	var err error
 	w.ops++
 	if w.side == 's' {
 		// the relay decrypts the separate header (SessionInfo) before it picks the session's unpacker
-		if _, err = w.e.server.SessionInfo(w.rbuf[:n]); err == nil {
-			_, ps, pl, err = w.suA.UnpackInPlace(w.rbuf, pClientAddrPort, 0, n)
+		if _, err = w.e.server.SessionInfo(w.c.rbuf[:n]); err == nil {
+			_, ps, pl, err = w.suA.UnpackInPlace(w.c.rbuf, pClientAddrPort, 0, n)
 		}
 	} else {
-		_, ps, pl, err = w.cuA.UnpackInPlace(w.rbuf, pServerAddrPort, 0, n)
+		_, ps, pl, err = w.cuA.UnpackInPlace(w.c.rbuf, pServerAddrPort, 0, n)
 	}
 	if err != nil {
 		return false, true, err.Error(), ""
 	}
-	ok := ps >= 0 && pl >= 0 && ps+pl <= n && bytes.Equal(w.rbuf[ps:ps+pl], p.payload)
+	ok := ps >= 0 && pl >= 0 && ps+pl <= n && bytes.Equal(w.c.rbuf[ps:ps+pl], p.payload)
 	return true, ok, "", ""
 }
 
